@@ -24,6 +24,7 @@ Proof.
 Qed.
 
 Ltac lens := cbn [length] in *; repeat (rewrite app_length in *; cbn [length] in *); lia.
+Ltac appnorm := repeat first [rewrite <- app_assoc | progress (cbn [app])].
 Ltac listnorm := repeat first [rewrite rev_app_distr | rewrite <- app_assoc | progress (cbn [rev app])].
 
 (* ------------------------------------------------------------------ *)
@@ -664,13 +665,13 @@ Proof.
     + cbn [render_trivia map concat app]. unfold wf_spec, render_spec in *. destruct sp as [n mid l].
       cbn [sp_name sp_mid sp_path] in *. destruct n as [| |id]; cbn [render_name app].
       * apply andb_true_iff in Hs. destruct Hs as [Hs _]. apply andb_true_iff in Hs. destruct Hs as [Hs _].
-        apply is_nil_b_true in Hs. rewrite Hs. cbn [app]. rewrite <- app_assoc. apply lit_after_word.
+        apply is_nil_b_true in Hs. rewrite Hs. cbn [app]. apply lit_after_word.
       * reflexivity.
       * discriminate.
     + cbn [wf_trivia forallb] in Ht. apply andb_true_iff in Ht. destruct Ht as [Ht _].
       now apply triv_head_after_word.
   - exists (render_trivia t1 ++ LPAREN :: render_specs specs ++ render_trivia tend ++ RPAREN :: Y).
-    split; [rewrite <- !app_assoc; cbn [app]; rewrite <- !app_assoc; reflexivity|].
+    split; [appnorm; reflexivity|].
     apply andb_true_iff in Hwf. destruct Hwf as [Hwf _]. apply andb_true_iff in Hwf. destruct Hwf as [Ht _].
     apply trivia_after_word; [exact Ht|reflexivity].
 Qed.
@@ -699,7 +700,7 @@ Proof.
     2:{ revert HF'. rewrite !app_length. lia. }
     f_equal. listnorm. reflexivity.
   - apply andb_true_iff in Hwf. destruct Hwf as [Hwf Hte]. apply andb_true_iff in Hwf. destruct Hwf as [Ht Hsp].
-    rewrite <- !app_assoc in E1. apply app_inv_head in E1. cbn [app] in E1. rewrite <- !app_assoc in E1. subst Y1.
+    rewrite <- !app_assoc in E1. apply app_inv_head in E1. cbn [app] in E1. try rewrite <- !app_assoc in E1. subst Y1.
     rewrite (peek_true_at F i _ t1 (LPAREN :: render_specs specs ++ render_trivia tend ++ RPAREN :: Y) s1 A1 Ht eq_refl).
     2:{ revert HF'. rewrite !app_length. lia. }
     cbn [hd]. rewrite beq_refl.
@@ -763,7 +764,7 @@ Proof.
   induction decls as [|[t d] decls IH]; [cbn; lia|].
   change (render_decls ((t, d) :: decls)) with ((render_trivia t ++ render_decl d) ++ render_decls decls).
   rewrite !app_length. assert (1 <= length (render_decl d)) by (destruct d; cbn [render_decl]; rewrite kw_import_eq; cbn [app length]; lia).
-  lia.
+  cbn [length]. lia.
 Qed.
 
 Lemma scan_at g rest : wf_section g rest = true -> length (render_body g ++ rest) + 4 <= F ->
@@ -773,35 +774,122 @@ Proof.
   unfold wf_section, render_body, paths. destruct g as [bm t0 t1 pkg decls tend].
   cbn [f_bom f_t0 f_t1 f_pkg f_decls f_tend]. intros Hwf HF.
   repeat (let H := fresh "W" in apply andb_true_iff in Hwf; destruct Hwf as [Hwf H]).
-  rename Hwf into W0.
-  (* W0: t0, W5: t1, W4: t1 nonempty, W3: pkg, W2: decls, W1: tend, W: stop_rest, ... *)
+  rename Hwf into Wt0, W5 into Wt1, W4 into Wne, W3 into Wpkg, W2 into Wdecls, W1 into Wtend, W0 into Wstop, W into HWZ.
   unfold scan_imports. rewrite <- !app_assoc in *.
   set (Z := render_decls decls ++ render_trivia tend ++ rest) in *.
   (* package *)
   assert (HW1 : after_word (render_trivia t1 ++ pkg ++ Z) = true).
-  { destruct t1 as [|t t1]; [discriminate|]. cbn [wf_trivia forallb] in *.
-    match goal with H : wf_triv t && _ = true |- _ => apply andb_true_iff in H; destruct H as [Ht _] end.
-    now apply triv_head_after_word. }
+  { destruct t1 as [|t t1]; [discriminate Wne|]. cbn [wf_trivia forallb] in Wt1.
+    apply andb_true_iff in Wt1. destruct Wt1 as [Ht _]. now apply triv_head_after_word. }
   rewrite kw_package_eq in *.
   pose proof (read_keyword_at F [] x70 [x61; x63; x6b; x61; x67; x65] t0 [] (render_trivia t1 ++ pkg ++ Z) _
-                (at_fresh _ _ _) W0 eq_refl eq_refl HW1 HF) as A1.
+                (at_fresh _ _ _) Wt0 eq_refl eq_refl HW1 HF) as A1.
   rewrite <- kw_package_eq in *.
   set (s1 := read_keyword F kw_package _) in *.
   (* the package name *)
-  unfold wf_ident in *.
-  match goal with H : negb (is_nil_b pkg) && forallb is_ident pkg = true |- _ =>
-    apply andb_true_iff in H; destruct H as [Hne Hid] end.
-  destruct pkg as [|a pkg]; [discriminate|].
-  match goal with H : after_word Z = true |- _ => rename H into HWZ end.
+  unfold wf_ident in Wpkg. apply andb_true_iff in Wpkg. destruct Wpkg as [Hne Hid].
+  destruct pkg as [|a pkg]; [discriminate Hne|].
   rewrite (read_ident_at F [] a pkg t1 _ Z s1 A1); auto.
   2:{ revert HF. rewrite !app_length. lia. }
   change (fun s0 : st => set_fail s0 FFuel) with oofs.
   match goal with |- context [loop F oofs ?st _] => change st with top_step end.
-  unfold Z. rewrite (top_loop_at tend rest decls); auto.
-  - f_equal. listnorm. reflexivity.
-  - apply landed_at. now apply after_word_hd_ok.
-  - pose proof (decls_length decls). revert HF. rewrite !app_length. lia.
-  - revert HF. rewrite !app_length. lia.
+  rewrite (top_loop_at tend rest decls Wtend Wstop [] _ _ F (landed_at _ _ _ (after_word_hd_ok _ HWZ)) Wdecls).
+  - unfold decls_paths. cbn [app]. f_equal. listnorm. now rewrite app_nil_r.
+  - pose proof (decls_length decls). revert HF. unfold Z. rewrite !app_length. lia.
+  - revert HF. unfold Z. rewrite !app_length. lia.
 Qed.
 
 End Section_.
+
+(* ------------------------------------------------------------------ *)
+(* the completeness theorem                                            *)
+
+Lemma body_no_bom g rest : wf_section g rest = true -> has_prefix bom (render_body g ++ rest) = false.
+Proof.
+  unfold wf_section, render_body. destruct g as [bm t0 t1 pkg decls tend].
+  cbn [f_bom f_t0 f_t1 f_pkg f_decls f_tend]. intros Hwf.
+  repeat (let H := fresh "W" in apply andb_true_iff in Hwf; destruct Hwf as [Hwf H]).
+  destruct t0 as [|t t0].
+  - reflexivity.
+  - cbn [wf_trivia forallb] in Hwf. apply andb_true_iff in Hwf. destruct Hwf as [Ht _].
+    rewrite render_trivia_cons, <- !app_assoc. destruct t as [b|body|body]; cbn [render_triv app].
+    + cbn [wf_triv] in Ht. destruct b; cbn in Ht; try discriminate; reflexivity.
+    + reflexivity.
+    + reflexivity.
+Qed.
+
+Lemma strip_bom_render g rest : wf_section g rest = true ->
+  strip_bom (render g ++ rest) = render_body g ++ rest.
+Proof.
+  intros Hwf. unfold render, strip_bom. destruct (f_bom g).
+  - rewrite <- app_assoc. rewrite has_prefix_app. apply skipn_length_app.
+  - cbn [app]. now rewrite (body_no_bom g rest Hwf).
+Qed.
+
+Theorem read_imports_complete report g rest : wf_section g rest = true ->
+  read_imports report (render g ++ rest) = ROk (paths g) (render_body g) ENone.
+Proof.
+  intros Hwf. unfold read_imports. rewrite (strip_bom_render g rest Hwf). cbv zeta.
+  change (init_st (render_body g ++ rest)) with (cst (render_body g ++ rest) [] NUL []).
+  rewrite (scan_at _ g rest Hwf) by (unfold fuel_for; lia).
+  destruct rest as [|y R]; unfold landed, finish_imports, est, cst; cbn; now rewrite rev_involutive.
+Qed.
+
+(* the returned prefix is itself an import section of G with the same paths: reading it
+   again gives the same imports and returns it unchanged *)
+Definition without_bom (g : isection) : isection :=
+  mksection false (f_t0 g) (f_t1 g) (f_pkg g) (f_decls g) (f_tend g).
+
+Lemma after_word_prefix X rest : after_word (X ++ rest) = true -> after_word (X ++ []) = true.
+Proof. destruct X; [reflexivity|intros H; exact H]. Qed.
+
+Lemma wf_section_prefix g rest : wf_section g rest = true -> wf_section (without_bom g) [] = true.
+Proof.
+  unfold wf_section, without_bom. cbn [f_bom f_t0 f_t1 f_pkg f_decls f_tend]. intros Hwf.
+  repeat (let H := fresh "W" in apply andb_true_iff in Hwf; destruct Hwf as [Hwf H]).
+  rewrite Hwf, W5, W4, W3, W2, W1. cbn [andb stop_rest].
+  rewrite app_assoc in W |- *. now apply (after_word_prefix _ rest).
+Qed.
+
+Theorem prefix_reparses report g rest : wf_section g rest = true ->
+  render (without_bom g) ++ [] = render_body g
+  /\ read_imports report (render_body g) = ROk (paths g) (render_body g) ENone.
+Proof.
+  intros Hwf. pose proof (read_imports_complete report (without_bom g) [] (wf_section_prefix g rest Hwf)) as H.
+  unfold render in *. cbn [without_bom f_bom app] in *. rewrite app_nil_r in *.
+  split; [reflexivity|exact H].
+Qed.
+
+(* ------------------------------------------------------------------ *)
+(* Examples: a non-trivial member of G                                 *)
+
+(* BOM, a line comment, newline, package, blank, block comment, p, then
+   ;import <interpreted f,escaped quote,m>  newline  import ( x <raw a/b> ; . <interpreted c> )
+   newline, an empty line comment; followed by func *)
+Definition ex_section : isection :=
+  mksection true
+    [TLine [x20; x63]; TSp x0a]
+    [TSp x20; TBlock [x2a]]
+    [x70]
+    [ ([TSp x3b], DSingle [] (mkspec NNone [] (SInterp [IPlain x66; IEsc x22; IPlain x6d])));
+      ([TSp x0a], DGroup [TSp x20]
+          [ ([TSp x0a; TSp x09], mkspec (NId [x78]) [TSp x20] (SRaw [x61; x2f; x62]));
+            ([TSp x3b], mkspec NDot [] (SInterp [IPlain x63])) ]
+          [TSp x0a]) ]
+    [TSp x0a; TLine []].
+
+Example ex_section_wf : wf_section ex_section [x66; x75; x6e; x63] = true.
+Proof. vm_compute. reflexivity. Qed.
+
+Example ex_section_read :
+  read_imports true (render ex_section ++ [x66; x75; x6e; x63])
+  = ROk [[x22; x66; x5c; x22; x6d; x22]; [x60; x61; x2f; x62; x60]; [x22; x63; x22]]
+        (render_body ex_section) ENone.
+Proof. vm_compute. reflexivity. Qed.
+
+(* the hypothesis of no_report_whole is satisfiable: "x\ny" is not a Go file *)
+Example ex_no_report :
+  read_imports true [x78; x0a; x79] = ROk [] [x78] ESyntax
+  /\ read_imports false [x78; x0a; x79] = ROk [] [x78; x0a; x79] ENone
+  /\ read_imports false [x78; x00; x79] = ROk [] [x78; x00] ENUL.
+Proof. vm_compute. repeat split. Qed.
